@@ -91,7 +91,9 @@ def run(rng, tier, model_ok):
             N("3"), N("10"), N("0.5"), B("/", N("1"), N("3")), ("pct", "100"), ("pct", "50"), N("1e3"), N("1e-3"), N("7.25"),
             B("-", N("2"), N("5")), N("-2"), N("+3"),
             N("2147483647"), N("2147483648"), N("4294967296"), N("9223372036854775807"), N("9223372036854775808"), N("18446744073709551616"),
-            N("0.000000000000000000001")]
+            N("0.000000000000000000001"),
+            # undefined arithmetic as an operand: the error must come out whatever is done with it (times zero, to the power zero ...)
+            B("/", N("1"), N("0")), B("^", N("0"), N("-1")), B("/", N("5"), B("-", N("3"), N("3")))]
     exps = [N(str(k)) for k in range(-4, 5)] + [B("-", N("1"), N("3")), B("-", N("2"), N("2")), B("+", N("1"), N("1"))]
     fam = []
     for a in pool:
